@@ -24,6 +24,81 @@ pub struct ExWaker(std::task::Waker);
 //@ close
 //@ item src/sources/futures.rs / enum ExecutorError props=C10
 //@ enditem
+//@ item src/sources/futures.rs / struct Scheduler props=C10
+//@ pre
+#[verifier::reject_recursive_types(T)]
+//@ enditem
+//@ item src/sources/futures.rs / struct ExecutorDestroyed props=C10
+//@ enditem
+
+impl<T> Scheduler<T> {
+//@ slice src/sources/futures.rs / impl Scheduler<T> / fn schedule :: stmts <<let mut active_guard = self.state.active_tasks.borrow_mut();>> .. <<let index = active_tasks.vacant_key();>> props=C10 name=Scheduler::schedule::head
+//@ rw R10 * <<self.state.active_tasks.borrow_mut()>> => <<tasks_cell>>
+//@ sig
+    /// S1 slice of Scheduler::schedule: from taking the task table to choosing the key of the new task. R10: the borrow of
+    /// the task-table cell becomes `tasks_cell`. Dropped: the nested item definitions before it, the construction of the
+    /// wrapping future / schedule closure and the spawn (async blocks, async_task::Builder) between this range and the tail.
+    fn schedule_head(&self, tasks_cell: &mut Option<Slab<Active<T>>>) -> (r: Result<usize, ExecutorDestroyed>)
+//@ spec
+        ensures
+            // C10: once the executor is gone (its Drop took the table: see Executor::drop::take_table) schedule() refuses
+            *old(tasks_cell) is None ==> r is Err,
+            // otherwise the key announced to the wrapping future (where it will store its result) is the key the table
+            // will give to the next insertion -- the one the tail of schedule() makes
+            *old(tasks_cell) matches Some(tab) ==> r == Ok::<usize, ExecutorDestroyed>(tab.next_key()),
+            *final(tasks_cell) == *old(tasks_cell),
+//@ tail
+        Ok(index)
+//@ endslice
+
+//@ slice src/sources/futures.rs / impl Scheduler<T> / fn schedule :: stmts <<active_tasks.insert(Active::Future(runnable.waker()));>> .. <<task.detach();>> props=C10 name=Scheduler::schedule::tail
+//@ rw R10 1 <<drop(active_guard);>> => <<;>>
+//@ sig
+    /// S1 slice of Scheduler::schedule: its last four statements. `active_tasks` (the table borrowed through the guard),
+    /// `runnable`, `task` become parameters; R10: the release of the guard is dropped.
+    fn schedule_tail(active_tasks: &mut Slab<Active<T>>, runnable: Runnable<usize>, task: crate::async_task::Task<(), usize>)
+//@ spec
+        ensures
+            // C10: the new task enters the table under the announced key, holding its own waker (what Executor::drop wakes),
+            final(active_tasks)@ == old(active_tasks)@.insert(old(active_tasks).next_key(), Active::Future(runnable.spec_waker())),
+            // and its runnable has been scheduled (first poll): a scheduled future is never left unpolled
+            crate::async_task::w_scheduled(runnable),
+//@ endslice
+}
+
+impl<T> Executor<T> {
+//@ slice src/sources/futures.rs / impl Drop for Executor<T> / fn drop :: stmts <<let active_tasks = self.state.active_tasks.borrow_mut().take().unwrap();>> .. <<let active_tasks = self.state.active_tasks.borrow_mut().take().unwrap();>> props=C10 name=Executor::drop::take_table
+//@ rw R10 * <<self.state.active_tasks.borrow_mut()>> => <<tasks_cell>>
+//@ sig
+    /// S1 slice of `impl Drop for Executor`: its first statement (R10: the task-table cell). Dropped: the loop that wakes
+    /// every task (iteration over a Slab, catch_unwind).
+    fn drop_take_table(&self, tasks_cell: &mut Option<Slab<Active<T>>>) -> (r: Slab<Active<T>>)
+//@ spec
+        requires *old(tasks_cell) is Some,
+        ensures
+            // C10: dropping the executor empties the cell: from now on schedule() returns ExecutorDestroyed (schedule::head)
+            *final(tasks_cell) is None, Some(r) == *old(tasks_cell),
+//@ tail
+        active_tasks
+//@ endslice
+
+//@ slice src/sources/futures.rs / impl Drop for Executor<T> / fn drop :: stmts <<while self.state.incoming.try_recv().is_ok() {}>> .. <<while self.state.incoming.try_recv().is_ok() {}>> props=C10 name=Executor::drop::drain_queue
+//@ sig
+    /// S1 slice of `impl Drop for Executor`: its last statement, the loop that drops every queued runnable.
+    #[verifier::exec_allows_no_decreases_clause]
+    fn drop_drain_queue(&self)
+//@ spec
+        // (the drain-only-after-clearing-the-flag discipline of process_events does not apply: the executor is going away)
+        requires may_recv(&self.state.incoming),
+        ensures
+            // C10: the queue has been drained until it reported nothing more (so every queued runnable -- and with it its
+            // future -- has been dropped here, on the loop thread)
+            w_empty(&self.state.incoming) || w_disconnected(&self.state.incoming),
+//@ loop 1
+            invariant may_recv(&self.state.incoming),
+            ensures w_empty(&self.state.incoming) || w_disconnected(&self.state.incoming),
+//@ endslice
+}
 
 impl Sender {
 //@ slice src/sources/futures.rs / impl Sender / fn send :: after <<if let Err(e) = self .sender .lock()>> props=C10 name=Sender::send::wake_step
